@@ -485,6 +485,101 @@ func checkMixedJSON(c *vm.Ctx, r *vm.Rand) {
 	}
 }
 
+// mixedNBT: components whose translation arguments mix strings and components, through the NBT form. An NBT
+// list is homogeneous, so the codec has to bring the arguments to one kind; whatever it does, the output must
+// be one well-formed value that decodes back to the same component (a string argument and a text-only
+// component argument with that text count as equal, as everywhere in this monitor).
+func checkMixedNBT(c *vm.Ctx, r *vm.Rand) {
+	feats := map[string]bool{}
+	m := chat.Message{Translate: "verif.unknown.key." + genStr(r)}
+	if r.Bool() && len(knownKeys) > 0 {
+		m.Translate = knownKeys[r.Intn(len(knownKeys))]
+	}
+	for i := r.Range(2, 5); i > 0; i-- {
+		if r.Bool() {
+			m.With = append(m.With, genStr(r)+"x")
+			feats["s"] = true
+		} else {
+			m.With = append(m.With, genMsg(r, genCfg{forNBT: true, depth: 3}, map[string]bool{}))
+			feats["c"] = true
+		}
+	}
+	if !feats["s"] || !feats["c"] {
+		return
+	}
+	js, _ := json.Marshal(m)
+	wit := func() any { return map[string]any{"component_json": short(string(js))} }
+	var buf bytes.Buffer
+	var err error
+	if c.Guard("nbt/mixed-write", wit, func() { _, err = m.WriteTo(&buf) }) {
+		return
+	}
+	c.Eval(vm.Hash64(js, []byte("mixed-nbt")), true)
+	if err != nil {
+		c.Violation("nbt/mixed-arguments/write-error", "a component with mixed string/component translation arguments cannot be written in NBT form: "+err.Error(), wit())
+		return
+	}
+	w2 := func() any { w := wit().(map[string]any); w["nbt_hex"] = vm.Hex(buf.Bytes()); return w }
+	if _, _, used, perr := refnbt.Parse(buf.Bytes(), true); perr != nil || used != buf.Len() {
+		c.Violation("nbt/mixed-arguments/malformed", fmt.Sprintf("WriteTo reported success but the NBT form is not one well-formed value: %v (used %d of %d bytes)", perr, used, buf.Len()), w2())
+		return
+	}
+	var back chat.Message
+	if c.Guard("nbt/mixed-read", w2, func() { _, err = back.ReadFrom(bytes.NewReader(buf.Bytes())) }) {
+		return
+	}
+	if err != nil {
+		c.Violation("nbt/mixed-arguments/read-error", "reading the NBT form back failed: "+err.Error(), w2())
+		return
+	}
+	if d := eqMsg(m, back, "$"); d != "" {
+		c.Violation("nbt/mixed-arguments/roundtrip/"+field(d), "component changed over the NBT form: "+d, w2())
+		return
+	}
+	c.Cover("nbt.mixed-arguments")
+}
+
+// checkPlainArgs: formatting codes inside string-kind translation arguments are removed in plain mode like anywhere else.
+func checkPlainArgs(c *vm.Ctx, r *vm.Rand) {
+	if len(knownKeys) == 0 {
+		return
+	}
+	key := knownKeys[r.Intn(len(knownKeys))]
+	format := en_us.Map[key]
+	n := len(placeholders.FindAllString(format, -1))
+	if n == 0 || n > 4 || strings.Contains(format, "§") || strings.Contains(format, "[") {
+		return
+	}
+	codes := []string{"§c", "§r", "§l", "§0", "§K"}
+	m := chat.Message{Translate: key}
+	clean := make([]string, n)
+	for i := 0; i < n; i++ {
+		clean[i] = fmt.Sprintf("arg%d", i)
+		dirty := codes[r.Intn(len(codes))] + clean[i] + codes[r.Intn(len(codes))]
+		if r.Bool() {
+			m.With = append(m.With, dirty)
+		} else {
+			m.With = append(m.With, chat.Text(dirty))
+		}
+	}
+	want, ok := refFormat(format, clean)
+	if !ok {
+		return
+	}
+	js, _ := json.Marshal(m)
+	wit := func() any { return map[string]any{"component_json": short(string(js)), "format": format} }
+	var got string
+	if c.Guard("render/plain-args", wit, func() { got = m.ClearString() }) {
+		return
+	}
+	c.Eval(vm.Hash64(js, []byte("plain-args")), true)
+	if got != want {
+		c.Violation("render/section-sign-code-survives-in-argument", fmt.Sprintf("ClearString() = %q, with the formatting codes of the arguments removed it is %q", short(got), short(want)), wit())
+		return
+	}
+	c.Cover("render.codes-removed-from-arguments")
+}
+
 // acceptForms: a bare string, a compound and a list are components in both forms.
 func checkForms(c *vm.Ctx, r *vm.Rand) {
 	s := genStr(r)
@@ -725,6 +820,11 @@ func run(c *vm.Ctx) {
 	r := c.Rand("components")
 	for i := 0; i < c.Scale(30000, 800000); i++ {
 		checkComponent(c, r, i)
+	}
+	er := c.Rand("extra")
+	for i := 0; i < c.Scale(3000, 60000); i++ {
+		checkMixedNBT(c, er)
+		checkPlainArgs(c, er)
 	}
 	mr := c.Rand("mixed")
 	for i := 0; i < c.Scale(8000, 200000); i++ {
